@@ -15,6 +15,7 @@ import (
 	fsdb "git.defalsify.org/vise.git/db/fs"
 	"git.defalsify.org/vise.git/engine"
 	"git.defalsify.org/vise.git/persist"
+	"git.defalsify.org/vise.git/resource"
 	"git.defalsify.org/vise.git/verifshim/vos"
 
 	"verif/app"
@@ -48,6 +49,21 @@ type c12Witness struct {
 }
 
 func c12App(i int) *app.App {
+	if i == 3 {
+		// consecutive records of EQUAL length that differ in two places (move counter and a reloaded value)
+		a := app.New("toggle")
+		a.Node("root", "root {{.tv}}", codec.Ins{Op: codec.LOAD, Sym: "tv", N: 8}, codec.Ins{Op: codec.RELOAD, Sym: "tv"}, codec.Ins{Op: codec.MAP, Sym: "tv"}, codec.Ins{Op: codec.HALT},
+			codec.Ins{Op: codec.INCMP, Sym: ".", Sel: "1"}, codec.Ins{Op: codec.INCMP, Sym: ".", Sel: "0"})
+		a.Node("_catch", "catch", codec.Ins{Op: codec.HALT}, codec.Ins{Op: codec.INCMP, Sym: "_", Sel: "*"})
+		a.Func("tv", func(e *app.Env, sym string, in []byte, l string) (resource.Result, error) {
+			if string(in) == "1" {
+				return resource.Result{Content: "xxxxxx"}, nil
+			}
+			return resource.Result{Content: "yyyyyy"}, nil
+		})
+		a.WithInputs("1", "0", "zz")
+		return a
+	}
 	a := app.New(fmt.Sprintf("grow-%d", i))
 	sz := [][3]int{{4, 20, 60}, {30, 100, 250}, {1, 1, 400}}[i]
 	mk := func(n int, ch string) app.Func { return constFunc(strings.Repeat(ch, n)) }
@@ -70,11 +86,12 @@ type recDb struct {
 }
 
 func (r recDb) Put(ctx context.Context, k, v []byte) error {
-	err := r.Db.Put(ctx, k, v)
-	if err == nil && r.puts != nil {
+	// recorded BEFORE the call: a process that dies inside Put after the new file is in place has
+	// legitimately stored this (complete) value although Put never returned
+	if r.puts != nil {
 		*r.puts = append(*r.puts, append([]byte(nil), v...))
 	}
-	return err
+	return r.Db.Put(ctx, k, v)
 }
 
 func c12Open(dir string, puts *[][]byte) func() db.Db {
@@ -185,6 +202,9 @@ func c12Crash(appi int, inputs []string, p vos.Point, refs map[string]string) (s
 		oldAbsent = true
 	}
 	_, _, _, putKeys := c12Ops(appi, inputs)
+	oldRaw, _ := os.ReadFile(recordPath(dir, "s1"))
+	var attempts [][]byte
+	s.Open = c12Open(dir, &attempts)
 	vos.Reset()
 	vos.Active = true
 	vos.Arm(p)
@@ -218,7 +238,17 @@ func c12Crash(appi int, inputs []string, p vos.Point, refs map[string]string) (s
 		}
 		found = "absent"
 	} else {
+		// byte-exact: the file is the old record or a complete value some save of this request handed to the store
+		exact := !oldAbsent && string(raw) == string(oldRaw)
+		for _, at := range attempts {
+			if string(raw) == string(at) {
+				exact = true
+			}
+		}
 		key, derr := decodeKey(raw)
+		if derr == nil && !exact {
+			return "record-mixed-bytes", fmt.Sprintf("%s: the record (%d bytes) decodes, but its bytes are neither the old record (%d bytes) nor a complete value written by this request: old and new bytes are mixed", where, len(raw), len(oldRaw)), true
+		}
 		if derr != nil {
 			sg := "record-truncated-or-undecodable"
 			if len(raw) == 0 {
@@ -245,9 +275,16 @@ func c12Crash(appi int, inputs []string, p vos.Point, refs map[string]string) (s
 	}
 	// (3) a fresh engine continues from that state
 	for _, x := range []string{"1", "0"} {
-		fresh := c12Session(c12App(appi), dir, "s1", nil)
+		var later [][]byte
+		fresh := c12Session(c12App(appi), dir, "s1", &later)
 		// the crashed process had its own environment; the fresh one must answer like the crash-free reference
 		got := fresh.Request([]byte(x)).Client()
+		if len(later) > 0 {
+			// an undisturbed save after the crash must leave exactly what it wrote (no stale bytes from the dead process)
+			if now, err := os.ReadFile(recordPath(dir, "s1")); err != nil || string(now) != string(later[len(later)-1]) {
+				return "later-save-mixed-with-stale-bytes", fmt.Sprintf("%s: after the next (undisturbed) request %q the record is %d bytes, the save wrote %d bytes (%v)", where, x, len(now), len(later[len(later)-1]), err), true
+			}
+		}
 		var want []string
 		switch found {
 		case "old":
@@ -302,7 +339,7 @@ func c12Run(c *mc.Ctx) {
 		depth = 3
 	}
 	c.Note("history_depth", fmt.Sprint(depth))
-	for appi := 0; appi < 3; appi++ {
+	for appi := 0; appi < 4; appi++ {
 		a := c12App(appi)
 		for d := 0; d <= depth; d++ {
 			histories(a.Inputs, d, func(rest []string) {
